@@ -1,4 +1,5 @@
 import sys
+# unmarshalNullable (**T): null keeps the previous pointer
 p=sys.argv[1]+'/marshal.go'; s=open(p).read()
 old="""	if isNullData(info, data) {
 		nilValue := reflect.Zero(valueRef.Type().Elem())
